@@ -64,7 +64,7 @@ func vC10ManProbe(text string) (panicked string) {
 
 func vC10ManRun(s *vC10Scenario) (evs []vC10Ev) {
 	w := vC10NewWorld(s.Streams)
-	text := w.render(s.Streams, s.Hints)
+	text := w.render(s.Streams, false)
 	if s.Mut != "" {
 		text = vC10Mutate(text, s.Streams, s.Mut, s.MutArg)
 		if p := vC10ManProbe(text); p != "" {
